@@ -54,6 +54,30 @@ pyo3::create_exception!(
 /// True
 /// >>> opening_hours.validate("24/24")
 /// False
+/// Write a string as a double quoted Python literal. Rust's `{:?}` cannot be used for that as
+/// some of its escapes (eg. `\u{1}`) are not valid in Python.
+fn python_quoted(value: &str) -> String {
+    let mut res = String::with_capacity(value.len() + 2);
+    res.push('"');
+
+    for c in value.chars() {
+        match c {
+            '"' => res.push_str("\\\""),
+            '\\' => res.push_str("\\\\"),
+            '\n' => res.push_str("\\n"),
+            '\r' => res.push_str("\\r"),
+            '\t' => res.push_str("\\t"),
+            c if c.is_control() || matches!(c, '\u{85}' | '\u{200b}' | '\u{2028}' | '\u{2029}') => {
+                res.push_str(&format!("\\U{:08x}", u32::from(c)))
+            }
+            c => res.push(c),
+        }
+    }
+
+    res.push('"');
+    res
+}
+
 #[gen_stub_pyfunction]
 #[pyfunction]
 #[pyo3(text_signature = "(oh, /)")]
@@ -287,7 +311,7 @@ impl PyOpeningHours {
 
     #[pyo3()]
     fn __repr__(&self) -> String {
-        format!("OpeningHours({:?})", self.inner.to_string())
+        format!("OpeningHours({})", python_quoted(&self.inner.to_string()))
     }
 }
 
